@@ -204,14 +204,15 @@ func saveState(lastMessages map[string]interface{}) {
 	}
 	verifPoint("save:1")
 
-	// Move old config file to backup and new file to standard config name.
+	// Keep the old config file as the backup (a hard link, so that the standard config name never
+	// disappears), then move the new file to the standard config name in one atomic rename.
 	err = os.Remove(bakname)
 	if err != nil && !os.IsNotExist(err) {
 		log.Println("Could not remove backup file ", bakname, " even though it exists: ", err)
 		return
 	}
 	verifPoint("save:2")
-	err = os.Rename(mainname, bakname)
+	err = os.Link(mainname, bakname)
 	if err != nil && !os.IsNotExist(err) {
 		log.Println("Could not save backup file: ", err)
 		return
